@@ -64,7 +64,10 @@ def replay_one(hist: list[dict[str, Any]],
                 box = {'raises': None}
                 try:
                     # positional and keyword arguments pass through untouched
-                    kw = {'tag': marker, 'n': i}
+                    # (including names a wrapper is likely to use itself)
+                    kw = {'tag': marker, 'n': i, 'name': 'x', 'sync': False,
+                          'func': None, 'self': 1, 'args': (2,), 'kwargs': {},
+                          't': 4, 'out': 5, 'fname': 'y', 'times': [6]}
                     out = impls[rec['f']](marker, exc, box, depth + 1, i,
                                           **kw)
                     if box.get('args') != ((i,), kw):
